@@ -236,7 +236,11 @@ def main():
         c = meta[cid]
         for k in c.get('tags', []):
             dist[k] = dist.get(k, 0) + 1
-        if hasattr(fam, 'nontrivial') and fam.nontrivial(c, mo, io):
+        try:
+            nt = hasattr(fam, 'nontrivial') and fam.nontrivial(c, mo, io)
+        except Exception:
+            nt = False
+        if nt:
             nontrivial.add(hashlib.sha1(line.split(' ', 1)[1].encode()).hexdigest())
         if not eq:
             disagreements.append((c, mo, io))
